@@ -63,6 +63,42 @@ Definition syscall_gate (f : N) (e : interop_entry) : bool := has f (io_flags e)
    hard-fork set) *)
 Definition native_gate (f : N) (e : native_entry) : bool := has f (nm_flags e).
 
+(* ---- the native gate as a function of the chain state ----
+   native.Call: (1) required flags of the method for the current hard-fork (before Aspidochelone, ContractManagement
+   deploy/update are only asked for States|AllowNotify); (2) refuse unless the context's flags contain them; (3) ONLY
+   THEN the fee: since Faun a (contract, method offset) entry of the Policy fee whitelist means the fee was already
+   charged by System.Contract.Call (callExFromNative) and nothing is charged here; otherwise CPUFee/StorageFee.
+   The whitelist state therefore selects a branch AFTER the flag check and must not influence whether the method runs. *)
+Inductive gate_outcome := GRefused | GRun (fee_charged_here : N).
+
+Definition gate_runs (o : gate_outcome) : bool := match o with GRun _ => true | GRefused => false end.
+
+(* whitelisted = Some fee (the fixed fee of the whitelist entry, charged elsewhere) / None *)
+Definition native_call_gate (required current : N) (whitelisted : option N) (method_fee : N) : gate_outcome :=
+  if has current required
+  then GRun (match whitelisted with Some _ => 0 | None => method_fee end)
+  else GRefused.
+
+(* the defective nesting: flag check only on the branch that charges *)
+Definition native_call_gate_nested (required current : N) (whitelisted : option N) (method_fee : N) : gate_outcome :=
+  match whitelisted with
+  | Some _ => GRun 0
+  | None => if has current required then GRun method_fee else GRefused
+  end.
+
+(* required flags of a table entry at hard-fork hf (0 = none enabled) *)
+Definition native_required_at (hf : N) (e : native_entry) : N :=
+  if (hf =? 0) && String.eqb (nm_contract e) "ContractManagement" &&
+     (String.eqb (nm_name e) "deploy" || String.eqb (nm_name e) "update")
+  then N.land (nm_flags e) (N.lor (N.lor ReadStates WriteStates) AllowNotify)
+  else nm_flags e.
+
+Fixpoint table_at (hf : N) (l : list (N * list native_entry)) : list native_entry :=
+  match l with
+  | [] => []
+  | (k, t) :: r => if k =? hf then t else table_at hf r
+  end.
+
 (* ---- effect machine ----
    A program is a tree of instructions: a system call of the table, a System.Contract.Call into a native method,
    a System.Contract.Call into a deployed method with a body, a CALLT (method token) into a deployed method with a
